@@ -19,12 +19,14 @@ import (
 	"github.com/deadsy/sdfx/sdf"
 	v3 "github.com/deadsy/sdfx/vec/v3"
 	. "verifharness/kit"
+	mk "verifharness/marchkit"
 	sk "verifharness/samplekit"
+	"verifharness/rendergen"
 	"verifharness/tabgen"
 )
 
 func main() {
-	Main("C06", check, func(c *Ctx) (string, []byte, error) { return tabgen.Gen(c.Repo) })
+	Main("C06", check, func(c *Ctx) (string, []byte, error) { return tabgen.Gen(c.Repo) }, rendergen.Gen)
 }
 
 const imp = "From Sdfx Require Import Render.C06Corr.\nOpen Scope float_scope."
@@ -37,10 +39,36 @@ type Spec struct {
 	BBMax    []float64 `json:"bbmax"`
 	Shape    *sk.Field `json:"shape"`
 	Note     string    `json:"note,omitempty"`
-	// renderer reuse: these specs (same renderer, same meshCells) are rendered first, in order, by the
-	// SAME renderer object; the oracles are applied to the render of this spec
+	// renderer reuse: these specs are handled first, in order, by the SAME renderer object (entries with
+	// another cell count: by one second object of the same kind per cell count, interleaved); the oracles are
+	// applied to the render of this spec, which must also equal the render by a fresh renderer object
 	Prev []Spec `json:"prev,omitempty"`
+	// (entries of Prev) only Info is called for this model, not Render
+	InfoOnly bool `json:"info_only,omitempty"`
+	// over-estimating field: the renderer is given Gain * (1 + |GainDir . (p - centre of the box)|) * shape
+	// instead of the shape: same solid, same surface, but the value over-estimates the distance by a
+	// constant (GainDir absent) or position dependent factor >= Gain.  The oracles use the shape itself.
+	Gain    float64   `json:"gain,omitempty"`
+	GainDir []float64 `json:"gaindir,omitempty"`
 }
+
+// the field handed to the renderer
+func (s *Spec) rendered(F sk.F3) func(v3.Vec) float64 {
+	if s.Gain == 0 {
+		return F.F
+	}
+	k := s.Gain
+	if s.GainDir == nil {
+		return func(p v3.Vec) float64 { return k * F.F(p) }
+	}
+	w := vec(s.GainDir)
+	c := vec(s.BBMin).Add(vec(s.BBMax)).MulScalar(0.5)
+	return func(p v3.Vec) float64 { return k * (1 + math.Abs(w.Dot(p.Sub(c)))) * F.F(p) }
+}
+
+// no render of these harness inputs needs more evaluations than this (64 cells: < 3e5 lattice points);
+// a renderer that asks for more (a lattice far too fine for the model) is stopped and reported
+const evalCap = 3000000
 
 func (s *Spec) key() string {
 	b, _ := json.Marshal(s)
@@ -53,6 +81,7 @@ type corpus struct {
 
 type state struct {
 	r       *Report
+	out     string // output directory (the report is written from inside a render that runs away)
 	u3      *Cases
 	id      int
 	coqTris int
@@ -127,14 +156,33 @@ type rendered struct {
 
 func (st *state) render(sp *Spec, F sk.F3, fail func(string)) *rendered {
 	bb := sdf.Box3{Min: vec(sp.BBMin), Max: vec(sp.BBMax)}
-	rec := &sk.Recorder3{S: &sk.Fn3{F: F.F, BB: bb}}
+	field := &sk.Fn3{F: sp.rendered(F), BB: bb}
+	rec := &sk.Recorder3{S: field}
+	capped := &mk.Counted3{S: rec, Max: evalCap}
+	// a render that asks for more than evalCap evaluations cannot be stopped (worker goroutines) and may need
+	// hours: the input is recorded and the run ends here
+	runaway := func(what string) func() {
+		return func() {
+			fail(fmt.Sprintf("%s evaluated the model more than %d times (at most 64 cells a side are ever requested): the lattice is not the one of this model and cell count; run ended", what, evalCap))
+			st.u3.Write(st.out)
+			st.r.Write(st.out)
+			os.Exit(0)
+		}
+	}
+	capped.OnExceed = runaway("the render")
 	col := &sk.TriCollector{}
+	newObj := func(cells int) render.Render3 {
+		if sp.Renderer == "uniform" {
+			return render.NewMarchingCubesUniform(cells)
+		}
+		return render.NewMarchingCubesOctree(cells)
+	}
 	var obj render.Render3
+	objs := map[int]render.Render3{} // one renderer object per cell count, for the whole history
 	switch sp.Renderer {
-	case "uniform":
-		obj = render.NewMarchingCubesUniform(sp.Cells)
-	case "octree":
-		obj = render.NewMarchingCubesOctree(sp.Cells)
+	case "uniform", "octree":
+		obj = newObj(sp.Cells)
+		objs[sp.Cells] = obj
 	case "mc":
 		// rendered below (a panic of the renderer is a failing input)
 	default:
@@ -148,7 +196,7 @@ func (st *state) render(sp *Spec, F sk.F3, fail func(string)) *rendered {
 			}
 		}()
 		if sp.Renderer == "mc" {
-			render.VerifMarchingCubes(rec, bb, sp.Step, col)
+			render.VerifMarchingCubes(capped, bb, sp.Step, col)
 		}
 		return ""
 	}
@@ -168,6 +216,15 @@ func (st *state) render(sp *Spec, F sk.F3, fail func(string)) *rendered {
 		return ""
 	}
 	if obj != nil {
+		// the reference of a history: the same model through a renderer object that has seen nothing else
+		var fresh *sk.TriCollector
+		var freshInfo string
+		if len(sp.Prev) > 0 {
+			fresh = &sk.TriCollector{}
+			fo := newObj(sp.Cells)
+			freshInfo = fo.Info(field)
+			fo.Render(&mk.Counted3{S: field, Max: evalCap, OnExceed: runaway("a fresh renderer object")}, fresh)
+		}
 		for i := range sp.Prev {
 			p := &sp.Prev[i]
 			Fp, err := p.Shape.Build3(sk.Grid3{Res: 1}, 0, nil)
@@ -175,15 +232,63 @@ func (st *state) render(sp *Spec, F sk.F3, fail func(string)) *rendered {
 				fail("bad spec: " + err.Error())
 				return nil
 			}
-			if msg := renderObj(&sk.Fn3{F: Fp.F, BB: sdf.Box3{Min: vec(p.BBMin), Max: vec(p.BBMax)}}, &sk.TriCollector{}); msg != "" {
+			cells := p.Cells
+			if cells == 0 {
+				cells = sp.Cells
+			}
+			po := objs[cells]
+			if po == nil {
+				po = newObj(cells)
+				objs[cells] = po
+			}
+			ps := &mk.Counted3{S: &sk.Fn3{F: p.rendered(Fp), BB: sdf.Box3{Min: vec(p.BBMin), Max: vec(p.BBMax)}}, Max: evalCap,
+				OnExceed: runaway(fmt.Sprintf("step %d of the history", i+1))}
+			obj = po
+			if p.InfoOnly {
+				if msg := func() (msg string) {
+					defer func() {
+						if e := recover(); e != nil {
+							msg = fmt.Sprint(e)
+						}
+					}()
+					po.Info(ps)
+					return ""
+				}(); msg != "" {
+					fail(fmt.Sprintf("Info panicked on step %d of the sequence: %s", i+1, msg))
+					return nil
+				}
+				continue
+			}
+			if msg := renderObj(ps, &sk.TriCollector{}); msg != "" {
 				fail("renderer panicked on an earlier render of the sequence: " + msg)
 				return nil
 			}
+			if ps.Exceeded() {
+				fail(fmt.Sprintf("step %d of the sequence (after %d earlier calls on the same renderer object) evaluated its model more than %d times: the lattice is not the one of this model and cell count", i+1, i, evalCap))
+				return nil
+			}
 		}
-		if msg := renderObj(rec, col); msg != "" {
+		obj = objs[sp.Cells]
+		if msg := renderObj(capped, col); msg != "" {
 			fail("renderer panicked: " + msg)
 			return nil
 		}
+		if fresh != nil && !capped.Exceeded() {
+			if info := obj.Info(field); info != freshInfo {
+				fail(fmt.Sprintf("after %d earlier calls on the same renderer object Info returns %q, a fresh renderer object returns %q", len(sp.Prev), info, freshInfo))
+			}
+			same := len(fresh.T) == len(col.T)
+			for k := 0; same && k < len(col.T); k++ {
+				same = fresh.T[k] == col.T[k]
+			}
+			if !same {
+				fail(fmt.Sprintf("after %d earlier calls on the same renderer object the render has %d triangles from %d evaluations and differs from the render by a fresh renderer object (%d triangles): the mesh depends on the history of the renderer object", len(sp.Prev), len(col.T), len(rec.P), len(fresh.T)))
+			}
+		}
+	}
+	if capped.Exceeded() {
+		fail(fmt.Sprintf("the renderer evaluated the model more than %d times (%d cells requested): the lattice is not the one of this model and cell count", evalCap, sp.Cells))
+		return nil
 	}
 	out := &rendered{tris: col.T, rec: rec}
 	var xs, ys, zs []float64
@@ -311,6 +416,38 @@ func (st *state) do(sp *Spec, stratum string, rng *Rng) {
 	const snapAllowance = 1.0001e-12
 	tol := 1e-9*scale + snapAllowance
 	worst := 0.0
+	// the tight bounds are those of the linear zero crossing of the (constant multiple of the) distance itself
+	tight := sp.GainDir == nil
+	// --- cell-size arithmetic: every triangle comes from ONE cell of the lattice of (box, cells)
+	cellOf := func(a []float64, org, h, lo float64) (float64, float64) {
+		if a != nil { // uniform: the sampled lattice lines
+			i := sort.SearchFloat64s(a, lo+tol) - 1 // last line <= lo + tol
+			if i < 0 {
+				i = 0
+			}
+			if i > len(a)-2 {
+				i = len(a) - 2
+			}
+			return a[i], a[i+1]
+		}
+		i := math.Floor((lo + tol - org) / h)
+		return org + i*h, org + (i+1)*h
+	}
+	for ti, t := range o.tris {
+		for ax := 0; ax < 3; ax++ {
+			c := func(v v3.Vec) float64 { return [3]float64{v.X, v.Y, v.Z}[ax] }
+			lo, hi := math.Min(c(t[0]), math.Min(c(t[1]), c(t[2]))), math.Max(c(t[0]), math.Max(c(t[1]), c(t[2])))
+			var a []float64
+			if sp.Renderer != "octree" {
+				a = [][]float64{o.xs, o.ys, o.zs}[ax]
+			}
+			c0, c1 := cellOf(a, c(o.lo), o.hmax, lo)
+			if hi > c1+tol || lo < c0-tol {
+				fail(fmt.Sprintf("triangle %d %v spans [%g, %g] along axis %d: not inside one cell of the lattice of this box and cell count (cell [%g, %g], cell size %g)", ti, t, lo, hi, ax, c0, c1, o.hmax))
+				return
+			}
+		}
+	}
 	for ti, t := range o.tris {
 		for _, v := range t {
 			if v.X < o.lo.X-tol || v.Y < o.lo.Y-tol || v.Z < o.lo.Z-tol || v.X > o.hi.X+tol || v.Y > o.hi.Y+tol || v.Z > o.hi.Z+tol {
@@ -320,6 +457,9 @@ func (st *state) do(sp *Spec, stratum string, rng *Rng) {
 			fv := F.F(v)
 			switch kind {
 			case "plane":
+				if !tight {
+					break
+				}
 				worst = math.Max(worst, math.Abs(fv)/tol)
 				if math.Abs(fv) > tol {
 					fail(fmt.Sprintf("plane: vertex %v of triangle %d has f = %g (> 1e-9 * %g + 1e-12): not the zero crossing of its lattice edge", v, ti, fv, scale))
@@ -327,7 +467,7 @@ func (st *state) do(sp *Spec, stratum string, rng *Rng) {
 				}
 			case "sphere":
 				R := sp.Shape.R
-				if o.hmax < R {
+				if o.hmax < R && tight {
 					b := o.hmax * o.hmax / (8 * (R - o.hmax))
 					worst = math.Max(worst, -fv/b)
 					if fv > 1e-11*scale+snapAllowance || fv < -b*(1+1e-9)-1e-11*scale-snapAllowance {
@@ -337,6 +477,8 @@ func (st *state) do(sp *Spec, stratum string, rng *Rng) {
 				}
 			}
 			// any 1-Lipschitz field: |f(v)| <= h ; for the exact fields this is the distance to the surface
+			// (a vertex lies on a lattice edge whose ends straddle the surface, whatever multiple of the
+			// distance the renderer was given)
 			if math.Abs(fv) > o.hmax*(1+1e-9) {
 				fail(fmt.Sprintf("%s: vertex %v of triangle %d has |f| = %g > cell size %g", kind, v, ti, math.Abs(fv), o.hmax))
 				return
@@ -437,6 +579,37 @@ func (st *state) do(sp *Spec, stratum string, rng *Rng) {
 		if best > o.diag {
 			fail(fmt.Sprintf("%s: surface point %v is %g from the mesh (%d triangles), more than one cell diagonal %g", kind, p, best, len(o.tris), o.diag))
 			return
+		}
+	}
+	// --- over-estimating fields: the uniform walk looks at signs and at ratios of values along sign-changing
+	// edges only: g * shape (g > 0) has the cells of the shape itself, triangle for triangle, and for constant g
+	// the same vertices
+	if sp.Gain != 0 && sp.Renderer != "octree" {
+		base := *sp
+		base.Gain, base.GainDir, base.Prev = 0, nil, nil
+		ob := st.render(&base, F, fail)
+		if ob == nil {
+			return
+		}
+		tiny := false // values inside the (absolute) snapping window of mcInterpolate are not scale invariant
+		for _, v := range ob.rec.V {
+			if v != 0 && math.Abs(v) < 1e-9 {
+				tiny = true
+			}
+		}
+		if !tiny {
+			if len(ob.tris) != len(o.tris) {
+				fail(fmt.Sprintf("%s: the field times %g%s (same solid, same signs at every lattice point) renders to %d triangles, the field itself to %d", kind, sp.Gain, map[bool]string{true: "", false: " (1 + |w.(p-c)|)"}[tight], len(o.tris), len(ob.tris)))
+				return
+			}
+			for ti := range o.tris {
+				for k := 0; k < 3 && tight; k++ {
+					if d := o.tris[ti][k].Sub(ob.tris[ti][k]).Length(); d > tol {
+						fail(fmt.Sprintf("%s: vertex %d of triangle %d moves by %g when the field is multiplied by %g (the zero crossing of a lattice edge depends on the ratio of its end values only)", kind, k, ti, d, sp.Gain))
+						return
+					}
+				}
+			}
 		}
 	}
 	r.Sample(map[string]interface{}{"spec": sp, "triangles": len(o.tris), "evaluations": len(o.rec.P), "cell": o.hmax, "surface_samples": len(samples)})
@@ -601,7 +774,7 @@ func (st *state) volumeOrder(rng *Rng, renderer string, base int) {
 
 func check(c *Ctx, r *Report) error {
 	rng := NewRng(c.Seed)
-	st := &state{r: r, u3: &Cases{Kind: "uni3", Imports: imp, Type: "ucase3", Fn: "umismatches3", InfoFn: "uinexact3", PerShard: 4}, maxF: map[string]float64{}, ordMin: math.Inf(1)}
+	st := &state{r: r, out: c.Out, u3: &Cases{Kind: "uni3", Imports: imp, Type: "ucase3", Fn: "umismatches3", InfoFn: "uinexact3", PerShard: 4}, maxF: map[string]float64{}, ordMin: math.Inf(1)}
 	st.coqTris = TierN(c.Tier, 40000, 300000, 20000)
 	var specs []Spec
 	if b, err := os.ReadFile(filepath.Join(c.Verif, "corpus", "C06.json")); err == nil {
@@ -837,6 +1010,59 @@ func check(c *Ctx, r *Report) error {
 				}
 			}
 		}
+		// renderer histories: ONE renderer object is asked for Info / Render of models of DIFFERENT absolute size,
+		// position and shape (and a second object of the same kind with another cell count is used in between);
+		// the last render must pass every oracle above against the lattice of ITS OWN box and cell count and
+		// equal the render by a fresh object
+		for rep := 0; rep < TierN(c.Tier, 2, 8, 4); rep++ {
+			for _, rd := range []string{"octree", "uniform"} {
+				n := []int{8, 12, 20, 40}[rng.Intn(4)]
+				model := func(k float64, cells int) Spec {
+					m := scaleSpec(genSpec(rng, rd, cells), k)
+					return *m
+				}
+				info := func(m Spec) Spec { m.InfoOnly = true; return m }
+				n2 := []int{5, 16, 33}[rng.Intn(3)]
+				hist := []struct {
+					name string
+					prev []Spec
+				}{
+					{"big-then-small", []Spec{model(10, n)}},
+					{"info(big)-then-small", []Spec{info(model(pick(rng, 4, 10, 100), n))}},
+					{"small-then-big", []Spec{model(pick(rng, 0.3, 0.5), n)}},
+					{"other-cells-interleaved", []Spec{model(3, n2), model(0.5, n), info(model(2, n2))}},
+					{"render-info-render", []Spec{model(1, n), info(model(5, n))}},
+				}
+				for _, h := range hist {
+					sp := genSpec(rng, rd, n)
+					sp.Prev = h.prev
+					st.do(sp, fmt.Sprintf("history/%s/%s/%s", rd, h.name, sp.Shape.Kind), rng)
+				}
+			}
+		}
+		// over-estimating fields through the sign-only renderers: the same shapes handed over as
+		// gain * shape with gain 2, 10, 1000 (constant, or growing along a random direction): the surface and
+		// the sign at every lattice point are those of the shape, the value is up to 1000 times the distance.
+		// Oracles: everything above against the shape itself, and the mesh of the shape cell for cell
+		for rep := 0; rep < TierN(c.Tier, 3, 12, 6); rep++ {
+			for _, rd := range []string{"uniform", "mc"} {
+				for gi, gain := range []float64{2, 10, 1e3} {
+					n := []int{6, 12, 20, 32}[rng.Intn(4)]
+					sp := genSpec(rng, rd, n)
+					sp.Gain = gain
+					tag := "constant"
+					if (rep+gi)%2 == 1 {
+						// 1 + |w.(p - c)| runs from 1 at the centre to 1..5 at the faces of the box
+						w := v3.Vec{X: rng.Uniform(-1, 1), Y: rng.Uniform(-1, 1), Z: rng.Uniform(-1, 1)}
+						half := 0.5 * (sp.BBMax[0] - sp.BBMin[0])
+						w = w.MulScalar(rng.Uniform(0.5, 4) / (half * math.Max(w.Length(), 0.1)))
+						sp.GainDir = []float64{w.X, w.Y, w.Z}
+						tag = "directional"
+					}
+					st.do(sp, fmt.Sprintf("overestimate/gain=%g/%s/%s/%s", gain, tag, rd, sp.Shape.Kind), rng)
+				}
+			}
+		}
 		for rep := 0; rep < TierN(c.Tier, 2, 8, 4); rep++ {
 			st.volumeOrder(rng, "uniform", pick3(rng))
 			st.volumeOrder(rng, "octree", pick3(rng))
@@ -845,7 +1071,7 @@ func check(c *Ctx, r *Report) error {
 	if err := st.u3.Write(c.Out); err != nil {
 		return err
 	}
-	r.Rule = "a case = one real render (uniform, octree, or marchingCubes on a given box) of one shape with known surface at one resolution 3..64, with every vertex, triangle normal and a sample of surface points checked; non-trivial = the render has triangles; distinct = distinct (renderer, resolution, box, shape)"
+	r.Rule = "a case = one real render (uniform, octree, or marchingCubes on a given box) of one shape with known surface at one resolution 3..64, with every vertex, triangle normal, the containment of every triangle in one lattice cell and a sample of surface points checked; possibly after a history of other models handled by the same renderer object (then also compared with a fresh object), possibly of gain * shape with gain up to 1000 (then also compared cell for cell with the render of the shape); non-trivial = the render has triangles; distinct = distinct (renderer, resolution, box, shape, gain, history)"
 	r.Coverage["coq_uniform_walk_cases"] = st.u3.Len()
 	r.Coverage["worst_f_over_bound"] = st.maxF
 	r.Coverage["volume_orders"] = st.ords
@@ -857,6 +1083,7 @@ func check(c *Ctx, r *Report) error {
 	r.Assumptions = []string{
 		"two-sided Hausdorff distance, normals versus gradient and second-order volume convergence are measured on the generated shapes, not proved",
 		"completeness is sampled at surface points where a ball of one cell diagonal fits on both sides (spheres with R > 2 diagonals, box faces away from the edges, planes inside the bounding box)",
+		"renderer objects: histories of up to 3 earlier Info/Render calls on models 0.3x..100x the size of the rendered one, one or two objects; over-estimating fields: gain 2, 10, 1000, constant or growing linearly along one direction (uniform renderers only; the octree renderer is claimed for fields that never over-estimate)",
 		"normals are checked for triangles with area above 1e-6 h^2",
 	}
 	return nil
